@@ -123,6 +123,7 @@ impl LoggerHandle {
                 spec_stack: Vec::default(),
                 primary_writer,
                 other_writers,
+                last_one_out: Some(Arc::new(())),
             },
             #[cfg(feature = "specfile")]
             oam_specfile_watcher: None,
@@ -503,6 +504,8 @@ pub(crate) struct WritersHandle {
     spec_stack: Vec<LogSpecification>,
     primary_writer: Arc<PrimaryWriter>,
     other_writers: Arc<HashMap<String, Box<dyn LogWriter>>>,
+    // shared by all clones of a handle: the one that is dropped last shuts the writers down
+    last_one_out: Option<Arc<()>>,
 }
 impl WritersHandle {
     fn set_new_spec(&self, new_spec: LogSpecification) -> Result<(), FlexiLoggerError> {
@@ -530,6 +533,10 @@ impl WritersHandle {
 }
 impl Drop for WritersHandle {
     fn drop(&mut self) {
+        // dropping one clone must not stop the output of the others
+        if self.last_one_out.take().and_then(Arc::into_inner).is_none() {
+            return;
+        }
         self.primary_writer.shutdown();
         for writer in self.other_writers.values() {
             writer.shutdown();
